@@ -104,6 +104,10 @@ def gen_c11(seed, cfg=None):  # noqa: C901, PLR0912, PLR0915
     # narrow the focus further so that confusable neighbours really meet
     if len(focus_types) > 8:
         focus_types = rng.sample(focus_types, rng.randint(3, 8))
+    if rng.random() < 0.15:
+        # a whole history about one group of mutually confusable hints
+        focus = ["group"]
+        focus_types = [t for t in rng.choice(pools.CONFUSABLE_GROUPS) if t in pools.TYPES]
     handles = [{"base": "Retort", "recipe": rng.choice(C11_RECIPES),
                 "opts": {"strict_coercion": rng.random() < 0.65, "debug_trail": rng.choice(["ALL", "ALL", "FIRST", "DISABLE"])}}]
     about = [t for t in pools.RECIPE_TYPES.get(handles[0]["recipe"], []) if t in pools.TYPES]
